@@ -418,7 +418,11 @@ def sparse_contract(run_sink, tie_bound=True):
         before = lambda a, b, c: z3.Or(beforep(a, b), z3.And(a == i, b == j, c < k))      # noqa: E731
         out = [("range", z3.And(k >= 0, k <= S.n)), ("count-nonneg", V.v.count >= 0)]
         if tie_bound:
-            out += [("count", V.v.count == S.cnt(i, j, k))] + state(V, S, beforep, before) + frame(
+            out += [("count", V.v.count == S.cnt(i, j, k)),
+                    # earlier ties of this pair sit strictly below the next free slot (keeps the store reasoning local)
+                    ("below", z3.ForAll([c_], z3.Implies(z3.And(c_ >= 0, c_ < k, S.tie(i, j, c_)),
+                                                         z3.And(S.cnt(i, j, c_) < V.v.count, S.cnt(i, j, c_) >= 0)), patterns=[LEN(i, j, c_)]))]
+            out += state(V, S, beforep, before) + frame(
                 V, S, lambda a, b: z3.If(beforep(a, b), S.cnt(a, b, S.n), z3.If(z3.And(a == i, b == j), V.v.count, 0)))
         return out
 
